@@ -17,6 +17,7 @@ VERIF = os.path.dirname(HERE)
 TOOLS = os.path.join(VERIF, 'tools')
 PY = '/venv/bin/python'
 GUARD = 'GAPIC_GENERATOR_VERIF'
+IMPORT_MARKER = 'EMITTED-LIBRARY-IMPORT-FAILED'
 
 
 def ensure_env():
@@ -181,7 +182,20 @@ def run_driver(module, root, payload, timeout=600, env=None):
                        env=e, cwd=root, timeout=timeout)
     out = r.stdout.decode('utf-8', 'replace').strip().splitlines()
     if r.returncode != 0 or not out:
-        return False, None, (r.stderr.decode('utf-8', 'replace')[-4000:] + '\n' + '\n'.join(out[-5:]))
+        err = r.stderr.decode('utf-8', 'replace')[-4000:] + '\n' + '\n'.join(out[-5:])
+        mod = payload.get('module') if isinstance(payload, dict) else None
+        if isinstance(mod, str) and mod:
+            # why did the driver die?  An emitted library that cannot even be imported is a verdict about the generator, not a
+            # failure of the harness: core.run_check turns this marker into a violation.
+            try:
+                pr = subprocess.run([PY, '-W', 'ignore', '-c', f'import importlib; importlib.import_module({mod!r})'], capture_output=True,
+                                    env=e, cwd=root, timeout=300)
+                if pr.returncode != 0:
+                    last = [l for l in pr.stderr.decode('utf-8', 'replace').strip().splitlines() if l.strip()][-1:] or ['?']
+                    err = f'{IMPORT_MARKER} module={mod}: {last[0][:300]}\n' + err
+            except Exception:  # pragma: no cover
+                pass
+        return False, None, err
     try:
         return True, json.loads(out[-1]), r.stderr.decode('utf-8', 'replace')[-2000:]
     except Exception as ex:  # pragma: no cover
